@@ -255,6 +255,8 @@ def deep_obs(it, v, depth=0):
         return ("obj", v.cls.name, tuple((k, deep_obs(it, a, depth + 1)) for k, a in sorted(v.attrs.items()) if not k.startswith("__")))
     if isinstance(v, (SInt, SStr, SBool, SBytes)):
         return ("sym", type(v).__name__, v.t)
+    if type(v).__name__ == "SymIP":
+        return ("ipaddress", f"IPv{v.version}", ("sym", "SInt", v.value.t))
     if type(v).__name__ == "SymDT":
         return ("datetime", tuple(deep_obs(it, c, depth + 1) for c in v.comps), None if v.utcoffset() is None else v.utcoffset().total_seconds(), v.fold)
     if isinstance(v, Opaque):
